@@ -80,6 +80,9 @@ def run_config(cfg, res):
         for k in range(0, 5):
           yield '_' * k + base.split(';')[0]
           yield '_' * k + base.split(';')[0] + '_'
+          # ... and tagged series whose name looks like that output, with every kind of hostile tag value behind it
+          for tail in (';t=/../../../../../y', ';t=v', ';a=..;b=/', ';t=../../../../x', ';t=/abs', ';a=b;t=/../../../../../../etc/x'):
+            yield '_' * k + base.split(';')[0] + tail
       # long names: segments around the file systems' 255-byte component limit (with and without room for an
       # extension), each followed by neighbours that differ from it in exactly one character - at the ends, in the
       # middle and around the limit - including characters whose UTF-8 encodings share their leading or trailing bytes
